@@ -343,3 +343,45 @@ def concurrent_vs_alone(groups, switch_interval=1e-5, timeout=180):
             if not same:
                 bad.append((k, i, a, b))
     return bad, errs, n
+
+
+# ------------------------------------------------------------------------------------------
+# rejections in an optimised interpreter (python -O strips assert statements)
+# ------------------------------------------------------------------------------------------
+def outcomes_under_optimized_interpreter(snippets, timeout=300):
+    """Run each snippet (Python source, one call that is expected to raise) in ONE child interpreter
+    started with -O against the repository under test. Returns a list of 'raised:<Type>' /
+    'returned' / 'inconclusive:<why>' per snippet. A rejection implemented as an `assert` disappears there."""
+    import json
+    import os
+    import subprocess
+
+    from vf import harness
+
+    driver = (
+        "import json, sys, warnings\n"
+        "warnings.simplefilter('ignore')\n"
+        "import numpy as np\n"
+        "snips = json.loads(sys.stdin.read())\n"
+        "out = []\n"
+        "for s in snips:\n"
+        "    try:\n"
+        "        exec(s, {'np': np})\n"
+        "        out.append('returned')\n"
+        "    except Exception as e:\n"
+        "        out.append('raised:' + type(e).__name__)\n"
+        "print('VFOUT' + json.dumps({'optimize': sys.flags.optimize, 'out': out}))\n"
+    )
+    env = dict(os.environ, PYTHONPATH=os.path.join(harness.REPO, "src"), MPLBACKEND="Agg")
+    env.pop("PYTHONOPTIMIZE", None)
+    try:
+        r = subprocess.run([sys.executable, "-O", "-c", driver], input=json.dumps(list(snippets)), capture_output=True, text=True, timeout=timeout, env=env)
+    except subprocess.TimeoutExpired:
+        return ["inconclusive:timeout"] * len(snippets)
+    for line in r.stdout.splitlines():
+        if line.startswith("VFOUT"):
+            d = json.loads(line[5:])
+            if d["optimize"] < 1:
+                return ["inconclusive:child not optimised"] * len(snippets)
+            return d["out"]
+    return [f"inconclusive:child exited {r.returncode}: {r.stderr[-200:]}"] * len(snippets)
